@@ -139,7 +139,7 @@ class DSeparationJudgement:
     def is_canonical(self) -> bool:
         """Return if the conditional independency is in canonical form."""
         return (
-            self.left < self.right
+            str(self.left) < str(self.right)
             and isinstance(self.conditions, tuple)
             and tuple(sorted(self.conditions, key=str)) == self.conditions
         )
